@@ -1082,12 +1082,12 @@ def stream_reporting(run, cases):
 # ------------------------------------------------------------------ real fits
 
 def hourly_fit_job(args):
-    seed, variant = args
+    seed, variant = args[0], args[1]
     import random
     import fitlib
     from opendsm.eemeter import HourlyModel
     rng = random.Random(seed)
-    ndays = rng.choice([120, 200, 365])
+    ndays = rng.choice([100, 150, 220] if len(args) > 2 and args[2] == "short" else [120, 200, 365])
     scale = rng.choice([1.0, 1.0, 30.0, 0.01])
     df = fitlib.hourly_frame(rng, ndays=ndays, noise=rng.choice([0.05, 0.3, 1.5]), scale=scale, ghi=(variant == "ghi"))
     if variant == "netmeter":
@@ -1123,7 +1123,7 @@ def hourly_fit_job(args):
                       for a, b, f in rows])
     term = ("{| hc_pl := %s; hc_den := 1%%positive; hc_rows := []; hc_frows := %s; hc_p := %s; hc_mn := %s; hc_k := %s; hc_exp := %s |}" % (
         POLICY[0], frows, zlit(int(m.baseline_metrics.num_model_params)), flit(MN), flit(k_mad), coq_list([obsv(fields[f]) for f in FIELDS])))
-    return {"seed": seed, "variant": variant, "ndays": ndays, "fields": fields, "nrows": len(rows), "nparams": nparams,
+    return {"seed": seed, "variant": variant, "ndays": ndays, "span": args[2] if len(args) > 2 else "long", "fields": fields, "nrows": len(rows), "nparams": nparams,
             "stored_p": int(m.baseline_metrics.num_model_params), "n_interpolated": int(flag.sum()), "dq": dq, "tcv": tcv, "tpn": tpn,
             "fails": fails, "want_dq": not true_gate(T, tcv, tpn), "unsafe": unsafe_ratios(T, fields), "term": term}
 
@@ -1174,7 +1174,7 @@ def start_fits(run, hjobs=None, djobs=None):
     hv = ["plain", "netmeter", "noisy", "ghi"]
     dv = ["plain", "netmeter", "noisy"]
     if hjobs is None:
-        hjobs = [(run.rng.randrange(10**9), hv[i % len(hv)]) for i in range(run.n(3, 40))]
+        hjobs = [(run.rng.randrange(10**9), hv[i % len(hv)], "short" if run.quick() else "long") for i in range(run.n(3, 40))]
     if djobs is None:
         djobs = [(run.rng.randrange(10**9), dv[i % len(dv)]) for i in range(run.n(2, 30))]
     import multiprocessing as mp
@@ -1194,7 +1194,7 @@ def stream_fits(run, hjobs=None, djobs=None, handles=None):
         run.sample({"stream": "hourly_fit", "variant": r["variant"], "rows": r["nrows"], "interpolated": r["n_interpolated"],
                     "num_model_params": r["stored_p"], "cvrmse_adj": r["fields"]["cvrmse_adj"], "pnrmse_adj": r["fields"]["pnrmse_adj"],
                     "disqualified": r["dq"]}, limit=10)
-        rc = {"stream": "hourly_fit", "job": [r["seed"], r["variant"]]}
+        rc = {"stream": "hourly_fit", "job": [r["seed"], r["variant"], r["span"]]}
         if r["stored_p"] != r["nparams"]:
             run.violation({"defect": "num_model_params is not the number of non-zero coefficients", "call": "HourlyModel.fit"},
                           "C16 HourlyModel.fit stored num_model_params=%d, regression has %d" % (r["stored_p"], r["nparams"]),
